@@ -624,6 +624,8 @@ def subscript(I, obj, idx, lineno=0):
     if isinstance(obj, ClassVal):
         return obj  # generic alias List[int] etc.
     if isinstance(obj, PList):
+        if obj.builder:
+            raise Unsupported('indexing a list abstracted as a string builder')
         if isinstance(idx, SliceVal):
             if all(isinstance(x, (int, type(None))) for x in (idx.start, idx.stop, idx.step)):
                 return PList(obj.items[idx.start:idx.stop:idx.step], fresh=True)
@@ -1359,6 +1361,8 @@ def make_builtins(I) -> dict:
         if isinstance(x, (str, bytes, tuple, list, dict, set, frozenset, range)):
             return len(x)
         if isinstance(x, PList):
+            if x.builder:
+                raise Unsupported('len() of a list abstracted as a string builder')
             return len(x.items)
         if isinstance(x, PDict):
             return len(x.items)
